@@ -171,7 +171,7 @@ Theorem handle_enum dbg (st : sstate CC) line chs rq :
   parse_request X V1 dbg st line = ROk rq -> r_cmd rq = "enum" ->
   enum_safe (dd st) (cur st) (sc st) (p_params (r_args rq)) ->
   exists am,
-    (cur_get (cur st) (sort_abs (p_params (r_args rq))) + enum_limit (dd st) (r_args rq) <= u64_max ->
+    (cur_get (cur st) (enum_key (p_params (r_args rq))) + enum_limit (dd st) (r_args rq) <= u64_max ->
      am = enum_limit (dd st) (r_args rq)) /\
     handle_stream_msg X V1 dbg st line chs =
     (let '(s', c', r) := enumerate (dd st) (p_params (r_args rq)) am (cur st) (sc st) in
